@@ -53,7 +53,7 @@ type Datagram struct {
 }
 
 // Deviation names.
-var DevNames = []string{"deliver", "1-event-first", "3-events-first", "1-EINTR", "9-EINTR", "9-EAGAIN", "9-alternating", "10-EAGAIN", "stale-reply-first", "short-ack", "wrong-ack-type", "ack-foreign-seq"}
+var DevNames = []string{"deliver", "1-event-first", "3-events-first", "1-EINTR", "9-EINTR", "9-EAGAIN", "9-alternating", "10-EAGAIN", "stale-reply-first", "short-ack", "wrong-ack-type", "ack-foreign-seq", "ENOBUFS-once"}
 
 const (
 	DevDeliver = iota
@@ -68,6 +68,7 @@ const (
 	DevShortAck
 	DevWrongType
 	DevForeignSeq
+	DevENOBUFS
 )
 
 // MustFail reports whether the deviation is outside what the client must
@@ -96,6 +97,7 @@ type Sim struct {
 	Log          []string
 	All          []*Datagram // every datagram ever queued
 	NoDeviations bool        // only verdict choices
+	FaultsOnly   bool        // only transient / hard receive failures (no events, no ACK replacement)
 	AckOnlyDevs  bool
 }
 
@@ -228,6 +230,8 @@ func (s *Sim) Receive(nonBlocking bool, p libaudit.NetlinkParser) ([]syscall.Net
 				k, alt = 9, true
 			case DevEAGAIN10:
 				k, e = 10, syscall.EAGAIN
+			case DevENOBUFS:
+				k, e = 1, syscall.ENOBUFS
 			}
 			s.failLeft, s.failErr, s.failAlt = k-1, e, alt
 			first := e
@@ -245,7 +249,10 @@ func (s *Sim) Receive(nonBlocking bool, p libaudit.NetlinkParser) ([]syscall.Net
 			s.Devs = append(s.Devs, dev)
 			s.Log = append(s.Log, "dev="+DevNames[dev])
 		}
-		failMenu := []int{DevDeliver, DevEINTR1, DevEINTR9, DevEAGAIN9, DevAlt9, DevEAGAIN10}
+		failMenu := []int{DevDeliver, DevEINTR1, DevEINTR9, DevEAGAIN9, DevAlt9, DevEAGAIN10, DevENOBUFS}
+		if s.FaultsOnly {
+			failMenu = []int{DevDeliver, DevEAGAIN10, DevENOBUFS, DevEINTR9}
+		}
 		// stage 0: transient failures before anything is delivered
 		if d.stage == 0 {
 			d.stage = 1
@@ -253,6 +260,10 @@ func (s *Sim) Receive(nonBlocking bool, p libaudit.NetlinkParser) ([]syscall.Net
 				note(dev)
 				return fail(dev)
 			}
+		}
+		if s.FaultsOnly && d.stage == 1 {
+			d.stage = 3
+			d.decided = true
 		}
 		// stage 1: unsolicited events in front of the datagram
 		if d.stage == 1 {
